@@ -51,13 +51,13 @@ fn p_cvec_view_grow() {
 #[kani::unwind(6)]
 fn p_cvec_view_reserve_partial() {
     // a C caller growing a PARTIALLY filled vector by more than one element through the stored function
-    let mut v: Vec<u64> = Vec::with_capacity(2);
+    let mut v: Vec<u64> = Vec::with_capacity(3);   // spare capacity 2, smaller than the 3 requested
     v.push(kani::any());
     let first = v[0];
     let cv = CVec::from(v);
     let mut view: VecView<u64> = unsafe { core::mem::transmute_copy(&cv) };
     core::mem::forget(cv);
-    assert!(view.len == 1 && view.capacity == 2);
+    assert!(view.len == 1 && view.capacity == 3);
     let newcap = (view.reserve)(&mut view, 3);
     assert!(view.capacity - view.len >= 3 && newcap == view.capacity, "C16 view.reserve(&view, n) leaves room for n more elements and returns the capacity");
     let mut i = 0;
